@@ -274,6 +274,11 @@ class Interp:
             return f(*args, **kwargs)
         import re as _re
         from . import sstr as _sstr
+        if isinstance(getattr(f, '__self__', None), _re.Pattern) and len(args) == 1 and not kwargs and \
+                isinstance(args[0], Sym) and args[0].kind == 'str' and f.__name__ in ('match', 'fullmatch', 'search') and \
+                f.__self__.flags in (0, 32):
+            from . import reggen as _reggen
+            return _reggen.decide(self, f.__self__.pattern, f.__name__, args[0])      # a symbolic flat string
         if isinstance(getattr(f, '__self__', None), _re.Pattern) and _sstr.has_sstr(args):
             pat, meth = f.__self__.pattern, f.__name__
             if pat == r'stage([0-9]+)' and meth in ('match', 'fullmatch'):
@@ -282,6 +287,9 @@ class Interp:
                 return _sstr.variable_pattern_search(args[0])
             if meth == 'search' and pat == r'\[(\d+)\]':
                 return _sstr.needs_char_search(args[0], '[')
+            if meth in ('match', 'fullmatch', 'search') and len(args) == 1 and not kwargs and f.__self__.flags in (0, 32):
+                from . import reggen as _reggen
+                return _reggen.decide(self, pat, meth, args[0])      # no structural rule: the solver decides (fork)
             raise OutsideSubset("regular expression %r on a structured string" % pat)
         from . import models
         m = models.BUILTINS.get(f) if _hashable(f) else None
